@@ -57,6 +57,41 @@ theorem tie_collectionGet_calls : collectionGetCalls =
 
 theorem tie_collectionGet_ints : collectionGetInts = [27, 5, 5, 1] := rfl
 
+/-- The closure of CollectionGet shares nothing with the closures of the other backends or with
+the caller except the one-slot channel `first`: every assignment in the function (targets other
+than `err…`) is to a variable declared inside the closure or before the fan-out starts, the
+rewrite with the answering remote's own id sits inside the closure *before* the `select` that
+offers the collection, and what is returned is what was taken from `first`
+(Model: `fnOutcome` rewrites with `rid` before `firstAccept`; `collectionGetAnyOrder`). -/
+theorem tie_collectionGet_assigns : collectionGetAssigns =
+    ["c, err := conn.chooseBackend(options.UUID).CollectionGet(ctx, options)",
+     "c.ManifestText = rewriteManifest(c.ManifestText, options.UUID[:5])",
+     "first := make(chan arvados.Collection, 1)",
+     "remoteOpts := options",
+     "remoteOpts.ForwardedFor = conn.cluster.ClusterID + \"-\" + options.ForwardedFor",
+     "c, err := be.CollectionGet(ctx, remoteOpts)",
+     "pdh := arvados.PortableDataHash(c.ManifestText)",
+     "c.ManifestText = rewriteManifest(c.ManifestText, remoteID)"] := rfl
+
+theorem tie_collectionGet_skeleton : collectionGetSkeleton =
+    ["if len(options.UUID) == 27 {",
+     "call conn.chooseBackend(options.UUID).CollectionGet => c,err", "call conn.chooseBackend",
+     "if err == nil && options.UUID[:5] != conn.cluster.ClusterID {", "call rewriteManifest => c.ManifestText", "}",
+     "return", "}",
+     "call conn.tryLocalThenRemotes => err",
+     "func {",
+     "call be.CollectionGet => c,err", "if err != nil {", "return", "}",
+     "call arvados.PortableDataHash => pdh",
+     "if pdh != options.UUID && !strings.HasPrefix(options.UUID, pdh+\"+\") {", "return", "}",
+     "if remoteID != \"\" {", "call rewriteManifest => c.ManifestText", "}",
+     "case {", "return", "}", "case {", "return", "}",
+     "}",
+     "if err != nil {", "return", "}",
+     "return"] := rfl
+
+theorem tie_collectionGet_returns : collectionGetReturns =
+    ["c, err", "err", "err", "nil", "nil", "arvados.Collection{}, err", "<-first, nil"] := rfl
+
 /-- tryLocalThenRemotes: local first; return unless 404 and not forwarded; one result per remote;
 first nil wins; 404 only if all were 404, else 502 (Model: `getByPDH`, `recvLoop`). -/
 theorem tie_try_conds : tryConds =
